@@ -456,3 +456,146 @@ if __name__ == "__main__":
 
     sk = skeletons()
     sys.stdout.write(render(sk))
+
+
+# ==================================================================================================================
+# Shell executor: the failure test on the return code (pydra/environments/native.py, base.py)  ->  Gen/ShellExec.lean
+
+GEN_SHELL = core.LEAN / "PydraModel" / "Gen" / "ShellExec.lean"
+
+RC_NAMES = {"output['return_code']", "return_code", "rc"}
+
+# `Native.execute` must have exactly this shape around the test (normalised source text; the test itself is parsed)
+NATIVE_BEFORE = [
+    "keys = ['return_code', 'stdout', 'stderr']",
+    "cmd_args = job.task._command_args(values=job.inputs)",
+    "values = base.execute(cmd_args)",
+    "output = dict(zip(keys, values))",
+]
+NATIVE_IF_BODY = [
+    'msg = f"Error running \'{job.name}\' job with {cmd_args}:"',
+    "if output['stderr']:\n    msg += '\\n\\nstderr:\\n' + output['stderr']",
+    "if output['stdout']:\n    msg += '\\n\\nstdout:\\n' + output['stdout']",
+    "raise RuntimeError(msg)",
+]
+NATIVE_AFTER = ["return output"]
+BASE_EXECUTE = ["rc, stdout, stderr = read_and_display(*cmd, strip=strip, **kwargs)", "return (rc, stdout, stderr)"]
+
+
+def _int_const(node) -> int:
+    if isinstance(node, ast.Constant) and type(node.value) is int:
+        return node.value
+    if isinstance(node, ast.UnaryOp) and isinstance(node.op, ast.USub) and isinstance(node.operand, ast.Constant) and type(node.operand.value) is int:
+        return -node.operand.value
+    raise ExtractError(f"return-code test: not an integer literal: {_src(node)!r}")
+
+
+def rc_test(node):
+    """Python expression over the return code -> ("truthy",) | (op, k) | ("not", t) | ("or"/"and", a, b)"""
+    if _src(node) in RC_NAMES:
+        return ("truthy",)
+    if isinstance(node, ast.UnaryOp) and isinstance(node.op, ast.Not):
+        return ("not", rc_test(node.operand))
+    if isinstance(node, ast.BoolOp):
+        parts = [rc_test(v) for v in node.values]
+        op = "or" if isinstance(node.op, ast.Or) else "and"
+        t = parts[0]
+        for p in parts[1:]:
+            t = (op, t, p)
+        return t
+    if isinstance(node, ast.Compare) and len(node.ops) == 1:
+        ops = {ast.NotEq: "ne", ast.Eq: "eq", ast.Gt: "gt", ast.GtE: "ge", ast.Lt: "lt", ast.LtE: "le"}
+        flip = {"ne": "ne", "eq": "eq", "gt": "lt", "ge": "le", "lt": "gt", "le": "ge"}
+        op = ops.get(type(node.ops[0]))
+        if op is None:
+            raise ExtractError(f"return-code test: unsupported comparison {_src(node)!r}")
+        left, right = node.left, node.comparators[0]
+        if _src(left) in RC_NAMES:
+            return (op, _int_const(right))
+        if _src(right) in RC_NAMES:
+            return (flip[op], _int_const(left))
+    raise ExtractError(f"return-code test: unrecognised expression {_src(node)!r}")
+
+
+def rc_test_lean(t) -> str:
+    if t[0] == "truthy":
+        return ".truthy"
+    if t[0] == "not":
+        return f"(.not_ {rc_test_lean(t[1])})"
+    if t[0] in ("or", "and"):
+        return f"(.{t[0]}_ {rc_test_lean(t[1])} {rc_test_lean(t[2])})"
+    k = t[1]
+    return f"(.{t[0]} ({k}))" if k < 0 else f"(.{t[0]} {k})"
+
+
+def rc_test_eval(t, rc: int) -> bool:
+    """Python mirror of `RcTest.eval` (used by the harness to predict, cross-checked against the driver)."""
+    if t[0] == "truthy":
+        return rc != 0
+    if t[0] == "not":
+        return not rc_test_eval(t[1], rc)
+    if t[0] == "or":
+        return rc_test_eval(t[1], rc) or rc_test_eval(t[2], rc)
+    if t[0] == "and":
+        return rc_test_eval(t[1], rc) and rc_test_eval(t[2], rc)
+    k = t[1]
+    return {"ne": rc != k, "eq": rc == k, "gt": rc > k, "ge": rc >= k, "lt": rc < k, "le": rc <= k}[t[0]]
+
+
+def shell_exec(repo=None) -> dict:
+    """The failure test of `Native.execute`, after checking the statements around it: the return code is
+    `subprocess.run(...).returncode` handed through unchanged, and a true test ends in `raise RuntimeError`."""
+    repo = repo or core.REPO
+    nat = ast.parse((repo / "pydra" / "environments" / "native.py").read_text())
+    cls = Extractor._find(nat.body, ast.ClassDef, "Native")
+    fn = Extractor._find(cls.body, ast.FunctionDef, "execute")
+    body = [st for k, st in enumerate(fn.body) if not (k == 0 and _is_doc(st))]
+    ifs = [k for k, st in enumerate(body) if isinstance(st, ast.If)]
+    if len(ifs) != 1:
+        raise ExtractError("Native.execute: expected exactly one top-level `if`")
+    k = ifs[0]
+    if [_src(s) for s in body[:k]] != NATIVE_BEFORE:
+        raise ExtractError(f"Native.execute: statements before the return-code test changed: {[_src(s) for s in body[:k]]}")
+    if [_src(s) for s in body[k + 1 :]] != NATIVE_AFTER:
+        raise ExtractError("Native.execute: statements after the return-code test changed")
+    st = body[k]
+    if st.orelse or [_src(s) for s in st.body] != NATIVE_IF_BODY:
+        raise ExtractError(f"Native.execute: the failure branch changed: {[_src(s) for s in st.body]}")
+    test = rc_test(st.test)
+    # the return code itself
+    base = ast.parse((repo / "pydra" / "environments" / "base.py").read_text())
+    ex = Extractor._find(base.body, ast.FunctionDef, "execute")
+    if [_src(s) for k2, s in enumerate(ex.body) if not (k2 == 0 and _is_doc(s))] != BASE_EXECUTE:
+        raise ExtractError("environments.base.execute: body changed")
+    rd = Extractor._find(base.body, ast.FunctionDef, "read_and_display")
+    txt = _src(rd)
+    if "sp.run(cmd, stdout=sp.PIPE, stderr=sp.PIPE, **kwargs)" not in txt:
+        raise ExtractError("read_and_display: subprocess call changed")
+    rets = [n for n in ast.walk(rd) if isinstance(n, ast.Return)]
+    if len(rets) != 2 or any(not (isinstance(r.value, ast.Tuple) and _src(r.value.elts[0]) == "process.returncode") for r in rets):
+        raise ExtractError("read_and_display: the return code is no longer `process.returncode`")
+    return {"native_test": test, "native_test_src": _src(st.test)}
+
+
+def render_shell(sx: dict) -> str:
+    def lean_str(s):
+        return '"' + s.replace("\\", "\\\\").replace('"', '\\"') + '"'
+
+    return (
+        "/- GENERATED by harness/extractors/job_skeleton.py from the working tree of the repository\n"
+        "   (pydra/environments/native.py: Native.execute; pydra/environments/base.py: execute, read_and_display).\n"
+        "   Do not edit. -/\n"
+        "import PydraModel.JobProto.RcTest\n"
+        "namespace PydraModel.Gen.ShellExec\n"
+        "open PydraModel.JobProto\n\n"
+        f"/-- source text of the test: `if {sx['native_test_src']}:` … `raise RuntimeError(msg)` -/\n"
+        f"def nativeRcTestSrc : String := {lean_str(sx['native_test_src'])}\n\n"
+        "/-- the failure test `Native.execute` applies to `subprocess.run(...).returncode` -/\n"
+        f"def nativeRcTest : RcTest := {rc_test_lean(sx['native_test'])}\n\n"
+        "end PydraModel.Gen.ShellExec\n"
+    )
+
+
+def extract_shell_exec(ctx=None):
+    core.write_if_changed(GEN_SHELL, render_shell(shell_exec()))
+    return [GEN_SHELL]
